@@ -157,9 +157,17 @@ fn main() {
             .build().expect("settings");
         Core::new(settings, None, hosts_settings(), Shutdown::new()).expect("core")
     });
-    // scenarios run concurrently (they are independent connections), each on its own thread
+    // scenarios run concurrently (they are independent connections), each on its own thread; the ones that
+    // follow an idle period of the listener run afterwards, one at a time, each after `gap` ticks without
+    // any connection (a connection's limits count from its own acceptance)
     let mut handles = vec![];
+    let mut gapped: Vec<Value> = vec![];
     for v in scen.iter().cloned() {
+        if v["gap"].as_u64().unwrap_or(0) > 0 {
+            // the stalled variants add nothing after a gap and cost 2T each: those that reach a decision quickly
+            if v["phase"] == "served" || (v["dHello"].as_u64().unwrap() <= t_ticks && v["dFin"] == v["never"]) { gapped.push(v); }
+            continue;
+        }
         let never = v["never"].as_u64().unwrap();
         let dh = v["dHello"].as_u64().unwrap();
         let df = v["dFin"].as_u64().unwrap();
@@ -167,14 +175,25 @@ fn main() {
             run_scenario(port, if dh == never { None } else { Some(dh) }, if df == never { None } else { Some(df) }, t_ticks)
         })));
     }
+    let mut results: Vec<(Value, Seen)> = vec![];
     for (v, h) in handles {
         let seen = match h.join() { Ok(s) => s, Err(_) => Seen { served: false, dropped_at_ms: None, stage2_start_ms: None, note: "scenario thread panicked".into() } };
+        results.push((v, seen));
+    }
+    for v in gapped {
+        let never = v["never"].as_u64().unwrap();
+        let (dh, df, gap) = (v["dHello"].as_u64().unwrap(), v["dFin"].as_u64().unwrap(), v["gap"].as_u64().unwrap());
+        std::thread::sleep(Duration::from_millis(gap * TICK_MS));
+        let seen = run_scenario(port, if dh == never { None } else { Some(dh) }, if df == never { None } else { Some(df) }, t_ticks);
+        results.push((v, seen));
+    }
+    for (v, seen) in results {
         rep.eval();
         let want = v["phase"].as_str().unwrap();
         let desc = json!({"scenario": v, "tick_ms": TICK_MS, "observed": format!("{:?}", seen)});
-        if want == "dropped" { rep.nontrivial(format!("{}-{}", v["dHello"], v["dFin"])); }
+        if want == "dropped" || v["gap"].as_u64().unwrap_or(0) > 0 { rep.nontrivial(format!("{}-{}-{}", v["dHello"], v["dFin"], v["gap"])); }
         rep.sample(desc.clone());
-        let class = format!("hello{}-fin{}", if v["dHello"] == v["never"] { "never".to_string() } else if v["dHello"].as_u64().unwrap() > t_ticks { "late".into() } else { "intime".into() },
+        let class = format!("{}hello{}-fin{}", if v["gap"].as_u64().unwrap_or(0) > 0 { "after-idle-listener:" } else { "" }, if v["dHello"] == v["never"] { "never".to_string() } else if v["dHello"].as_u64().unwrap() > t_ticks { "late".into() } else { "intime".into() },
                             if v["dFin"] == v["never"] { "never".to_string() } else if v["dFin"].as_u64().unwrap() > t_ticks { "late".into() } else { "intime".into() });
         match want {
             "served" => {
